@@ -150,6 +150,18 @@ def check_document(P, doc, expect, feats, w):
                 if bad:
                     dev("operation-references-other-model", "%s %s references %r" % (opname, "item" if tpl == item else
                                                                                    "collection", bad[:3]))
+                # ... and what it says in prose (summary, descriptions) names no *other* model of the document
+                P.monitor("operation-prose.checked")
+                others = set()
+                for e2 in expect:
+                    if e2 is not e:
+                        others.update((e2["name"], e2.get("schema_key", e2["name"])))
+                others -= {e["name"], key}
+                named = set(re.findall(r"`([^`]+)`", core.jdump([op.get("summary"), op.get("description")] + [
+                    p_.get("description") for p_ in op.get("parameters", []) if isinstance(p_, dict)])))
+                if named & others:
+                    dev("operation-names-other-model", "%s %s (model %s) talks about %r: summary %r" % (
+                        opname, tpl, e["name"], sorted(named & others), op.get("summary")))
 
 
 def gen_model_ir(r, name, explicit_pk):
